@@ -210,6 +210,8 @@ struct World {
     chans: Vec<Chan>,
     hpend: Vec<usize>,
     feedback: Vec<(usize, futures::channel::oneshot::Receiver<()>)>,
+    /// `Some`: the REAL `RequestResponseProtocol::run` future, polled by hand (no `step`, no dumps)
+    run: Option<futures::future::BoxFuture<'static, ()>>,
 }
 
 impl World {
@@ -217,14 +219,41 @@ impl World {
         self.peers.iter().position(|x| x == p).map(|i| i as u64).unwrap_or(99)
     }
 
-    /// Single-steps the event loop until nothing is ready; collects what became observable.
+    /// Lets the event loop run until nothing is ready; collects what became observable.
+    /// Step mode: the loop is single-stepped (cfg-gated copy of the select arms, state dumps
+    /// available). Run mode: the real `run` future is polled by hand; it may park in the middle of
+    /// a handler when the event channel is full, so events are drained between polls until a poll
+    /// brings nothing new.
     async fn settle(&mut self, events: &mut Vec<Vec<u64>>) {
-        for _ in 0..10_000 {
-            match self.proto.step().await {
-                VerifStep::Idle | VerifStep::Exit => break,
-                _ => {}
+        if self.run.is_none() {
+            for _ in 0..10_000 {
+                match self.proto.step().await {
+                    VerifStep::Idle | VerifStep::Exit => break,
+                    _ => {}
+                }
+            }
+            self.collect(events);
+            return;
+        }
+        let mut quiet = 0;
+        for _ in 0..100_000 {
+            if let Some(run) = self.run.as_mut() {
+                let _ = futures::poll!(run.as_mut());
+            }
+            let before = events.len();
+            self.collect(events);
+            if events.len() == before {
+                quiet += 1;
+                if quiet >= 3 {
+                    break;
+                }
+            } else {
+                quiet = 0;
             }
         }
+    }
+
+    fn collect(&mut self, events: &mut Vec<Vec<u64>>) {
         while let Some(Some(ev)) = self.handle.next().now_or_never() {
             match ev {
                 RequestResponseEvent::ResponseReceived { request_id, response, .. } => {
@@ -309,7 +338,18 @@ fn nth_mod<T: Copy>(k: u64, l: &[T]) -> Option<T> {
     }
 }
 
-async fn run_ops(c: &[u64]) -> Option<Vec<u64>> {
+/// What one stimulus made observable.
+struct StepRec {
+    target: Option<u64>,
+    events: Vec<Vec<u64>>,
+    dump: Vec<u64>,
+}
+
+/// How the protocol object is driven: `None` = single-stepped copy of the loop with dumps;
+/// `Some(channels)` = the real `run` future, optionally with small event / command channels.
+type Mode = Option<Option<(usize, usize)>>;
+
+async fn run_ops(c: &[u64], mode: Mode) -> Option<Vec<StepRec>> {
     let (max_inb, ndial, max_size) = (*c.first()?, *c.get(1)?, *c.get(2)?);
     let nops = *c.get(3)? as usize;
     if max_size > 1 << 20 {
@@ -317,13 +357,17 @@ async fn run_ops(c: &[u64]) -> Option<Vec<u64>> {
     }
     let peers: Vec<PeerId> = (0..NPEERS).map(|_| PeerId::random()).collect();
     let dialable: Vec<PeerId> = peers.iter().take((ndial as usize).min(NPEERS)).cloned().collect();
-    let (proto, handle) = VerifProtocol::new(
+    let (mut proto, handle) = VerifProtocol::new_full(
         max_size as usize,
         None,
         if max_inb == 0 { None } else { Some((max_inb - 1) as usize) },
         &dialable,
+        &[],
+        mode.flatten(),
     );
+    let run = if mode.is_some() { Some(proto.take_run()) } else { None };
     let mut w = World {
+        run,
         peers,
         proto,
         handle,
@@ -333,7 +377,7 @@ async fn run_ops(c: &[u64]) -> Option<Vec<u64>> {
         hpend: Vec::new(),
         feedback: Vec::new(),
     };
-    let mut out = vec![1u64];
+    let mut out: Vec<StepRec> = Vec::new();
     let mut i = 4;
     for _ in 0..nops {
         let tag = *c.get(i)?;
@@ -519,12 +563,11 @@ async fn run_ops(c: &[u64]) -> Option<Vec<u64>> {
         i += width;
         w.settle(&mut events).await;
         events.sort();
-        out.push(target.map(|t| t + 1).unwrap_or(0));
-        out.push(events.len() as u64);
-        for e in events {
-            out.extend(e);
+        let mut dump = Vec::new();
+        if w.run.is_none() {
+            w.dump(&mut dump);
         }
-        w.dump(&mut out);
+        out.push(StepRec { target, events, dump });
     }
     if i != c.len() {
         return None;
@@ -532,19 +575,56 @@ async fn run_ops(c: &[u64]) -> Option<Vec<u64>> {
     Some(out)
 }
 
+fn run_mode(c: &[u64], mode: Mode) -> Option<Vec<StepRec>> {
+    let rt = tokio::runtime::Builder::new_current_thread()
+        .enable_all()
+        .start_paused(true)
+        .build()
+        .unwrap();
+    // unconstrained: tokio's cooperative budget would otherwise make a ready channel or timer
+    // report Pending after ~128 operations within this single never-yielding poll, which the
+    // non-blocking probes of the harness (now_or_never, the idle arm of step) would mistake
+    // for "nothing ready"
+    rt.block_on(tokio::task::unconstrained(run_ops(c, mode)))
+}
+
+/// Every case is run three times on fresh protocol objects:
+///  A. the REAL `RequestResponseProtocol::run` future polled by hand — its events are the ones
+///     printed (so a change inside `run` is seen);
+///  B. the single-stepped copy of the loop — it supplies the bookkeeping dumps;
+///  C. the real `run` with an event channel and a command channel of capacity 1, the loop parking
+///     inside handlers until the user drains — must show the same events as A ("nothing lost").
+/// If B or C disagrees with A on what one stimulus made observable, a marker event `99 which` is
+/// added for that stimulus (the model never prints one, so the case shows up as a disagreement);
+/// if it is C, C's events are printed instead of A's, so that the oracle judges them too.
 fn run_case(c: &[u64]) -> Vec<u64> {
     let c = c.to_vec();
     catch_unwind(AssertUnwindSafe(move || {
-        let rt = tokio::runtime::Builder::new_current_thread()
-            .enable_all()
-            .start_paused(true)
-            .build()
-            .unwrap();
-        // unconstrained: tokio's cooperative budget would otherwise make a ready channel or timer
-        // report Pending after ~128 operations within this single never-yielding poll, which the
-        // non-blocking probes of the harness (now_or_never, the idle arm of step) would mistake
-        // for "nothing ready"
-        rt.block_on(tokio::task::unconstrained(run_ops(&c)))
+        let a = run_mode(&c, Some(None))?;
+        let b = run_mode(&c, None)?;
+        let k = run_mode(&c, Some(Some((1, 1))))?;
+        if a.len() != b.len() || a.len() != k.len() {
+            return Some(vec![PANIC_MARK, 1]);
+        }
+        let mut out = vec![1u64];
+        for ((a, b), k) in a.iter().zip(b.iter()).zip(k.iter()) {
+            let same = |x: &StepRec| x.target == a.target && x.events == a.events;
+            let shown = if !same(k) { k } else { a };
+            let mut events = shown.events.clone();
+            if !same(b) {
+                events.push(vec![99, 1]);
+            }
+            if !same(k) {
+                events.push(vec![99, 2]);
+            }
+            out.push(shown.target.map(|t| t + 1).unwrap_or(0));
+            out.push(events.len() as u64);
+            for e in events.iter() {
+                out.extend(e.iter().copied());
+            }
+            out.extend(b.dump.iter().copied());
+        }
+        Some(out)
     }))
     .unwrap_or(Some(vec![PANIC_MARK]))
     .unwrap_or(vec![0])
